@@ -6,3 +6,4 @@ pub mod poolview;
 pub mod pool;
 pub mod farm;
 pub mod props;
+pub mod fuzzglue;
